@@ -106,14 +106,23 @@ Proof.
   - exists []. cbn [s_head s_name]. unfold origin_head.
     rewrite (fields_word (bs "ORIGIN")) by (repeat constructor). rewrite fields_indent_acc by discriminate. reflexivity.
 Qed.
+Lemma more_lines_body cs : Forall body_line_ok (more_lines cs).
+Proof.
+  induction cs as [|c [|c' t] IH]; [constructor| |].
+  - constructor; [|constructor]. exists 32, (indent 20 ++ c ++ [34]). split; reflexivity.
+  - change (more_lines (c :: c' :: t)) with ((indent 21 ++ c) :: more_lines (c' :: t)). constructor; [|exact IH].
+    exists 32, (indent 20 ++ c). split; reflexivity.
+Qed.
 Lemma features_body_ok fs : Forall body_line_ok (render_features fs).
 Proof.
   unfold render_features. induction fs as [|f t IH]; [constructor|]. cbn [map concat]. apply Forall_app. split; [|exact IH].
   unfold feat_lines. constructor; [|apply Forall_app; split].
   - exists 32, (indent 4 ++ fk f ++ indent 3 ++ floc f). split; reflexivity.
   - apply Forall_forall. intros l Hl. apply in_map_iff in Hl as (c & <- & _). exists 32, (indent 20 ++ c). split; reflexivity.
-  - apply Forall_forall. intros l Hl. apply in_map_iff in Hl as (q & <- & _).
-    exists 32, (indent 20 ++ [47] ++ qk q ++ [61] ++ value_text q). split; reflexivity.
+  - induction (fquals f) as [|q qs IHq]; [constructor|]. cbn [map concat]. apply Forall_app. split; [|exact IHq].
+    unfold qual_lines. destruct (qmore q) as [|c cs].
+    + constructor; [|constructor]. exists 32, (indent 20 ++ [47] ++ qk q ++ [61] ++ value_text q). split; reflexivity.
+    + constructor; [|apply more_lines_body]. exists 32, (indent 20 ++ [47] ++ qk q ++ [61] ++ [34] ++ qv q). split; reflexivity.
 Qed.
 
 Theorem genbank_file_read (pre : list section) (fs : list wfeat) (n : nat) (olines : list (list (list N * list N))) :
